@@ -203,6 +203,44 @@ func scenarios(tier string) []scen {
 			}
 		}
 	}
+	// one URL reached twice in one seed's tree, along every pair of paths of at most two steps, a step being
+	// "asset of a playlist" (A) or "redirection" (R): 7 x 7 ordered pairs of paths, the page referencing both heads
+	paths := []string{"", "A", "R", "AA", "AR", "RA", "RR"}
+	build := func(i int, path, target string, nodes *[]world.Node) string {
+		// returns the URL the page references for occurrence i; adds the chain's nodes
+		next := target
+		for k := len(path) - 1; k >= 0; k-- {
+			if path[k] == 'A' {
+				u := fmt.Sprintf("%s/c%d%d.m3u8", H, i, k)
+				*nodes = append(*nodes, pl(u, next))
+				next = u
+			} else {
+				u := fmt.Sprintf("%s/r%d%d", H, i, k)
+				*nodes = append(*nodes, world.Node{URL: u, Kind: "redirect", Location: next})
+				next = u
+			}
+		}
+		return next
+	}
+	for _, p1 := range paths {
+		for _, p2 := range paths {
+			var nodes []world.Node
+			x := H + "/x.ts"
+			h1, h2 := build(1, p1, x, &nodes), build(2, p2, x, &nodes)
+			d := world.SiteDef{Name: fmt.Sprintf("one URL reached along paths %q and %q", p1, p2), Seeds: []string{H + "/p"},
+				Nodes: append([]world.Node{page(H+"/p", h1, h2), bin(x)}, nodes...)}
+			pp := 0
+			if tier == "thorough" {
+				pp = 1
+			}
+			for _, local := range []bool{false, true} {
+				if local && tier != "thorough" && len(p1)+len(p2) < 3 {
+					continue // quick: the real local store (slow) on the deeper shapes only
+				}
+				out = append(out, scen{Def: d, Opt: world.Options{Workers: 1, MaxConcurrentAssets: 2, MaxRetry: 0, MaxRedirect: 2, LocalSeencheck: local}, P: pp})
+			}
+		}
+	}
 	return append(out, concScenarios(tier)...)
 }
 
